@@ -5,7 +5,7 @@ func init() {
 		Explanation: "Static analysis of the restorer's synthetic position space: the cursor only moves forward (reset once, ++, += len(...)/Length); every position written into the ast is the cursor or NoPos (or a parameter that receives the cursor at every call site); every token stores its position before advancing by its own length; every line-table entry is int(cursor)-base (+ byte index inside a ranged text) and is followed by a cursor advance; the comment list is append-only; RestoreFile takes the base before the cursor starts, registers the file after the tree is restored with a size that covers the cursor, and checks SetLines; positions and children are written in go/ast's declaration (= source) order. Decides monotonicity, containment and line-table order for all trees; rank equality with a re-parse of go/printer's output is not decided.",
 		NotCovered:  []string{"rank equality with a fresh parse of the printed text (goes through go/printer)"},
 	}, func(e *Env) {
-		e.RCursor()
+		e.RCursor(true)
 		e.RAstOrder()
 	})
 }
